@@ -894,6 +894,8 @@ impl<'a> TLengthProtocol for TBinaryUnsafeInputProtocol<'a> {
 struct SkipData {
     pub ttype: [TType; 2],
     pub len: u32,
+    // nesting depth of the values this entry stands for
+    pub depth: usize,
 }
 
 macro_rules! skip_stack_pop {
@@ -1177,14 +1179,24 @@ impl<'a> TInputProtocol for TBinaryUnsafeInputProtocol<'a> {
         let mut len: usize = 0;
         let mut stack: SmallVec<[SkipData; 8]> = SmallVec::<[SkipData; 8]>::new();
 
+        // nesting depth of the value being skipped in this iteration
+        let mut depth: usize = 1;
+
         if field_type == TType::Struct {
             stack.push(SkipData {
                 ttype: [TType::Struct, TType::Struct],
                 len: 1,
+                depth,
             });
         }
 
         loop {
+            if depth > crate::thrift::MAXIMUM_SKIP_DEPTH as usize {
+                return Err(new_protocol_exception(
+                    ProtocolExceptionKind::DepthLimit,
+                    format!("cannot parse past {:?}", ttype),
+                ));
+            }
             match ttype {
                 TType::Bool => {
                     self.index += 1;
@@ -1237,6 +1249,7 @@ impl<'a> TInputProtocol for TBinaryUnsafeInputProtocol<'a> {
                             stack.push(SkipData {
                                 ttype: [field_ident.field_type, field_ident.field_type],
                                 len: 1,
+                                depth: depth + 1,
                             });
                         }
                     }
@@ -1256,6 +1269,7 @@ impl<'a> TInputProtocol for TBinaryUnsafeInputProtocol<'a> {
                             stack.push(SkipData {
                                 ttype: [list_ident.element_type, list_ident.element_type],
                                 len: list_ident.size as u32,
+                                depth: depth + 1,
                             });
                         }
                     }
@@ -1275,6 +1289,7 @@ impl<'a> TInputProtocol for TBinaryUnsafeInputProtocol<'a> {
                             stack.push(SkipData {
                                 ttype: [set_ident.element_type, set_ident.element_type],
                                 len: set_ident.size as u32,
+                                depth: depth + 1,
                             });
                         }
                     }
@@ -1297,6 +1312,7 @@ impl<'a> TInputProtocol for TBinaryUnsafeInputProtocol<'a> {
                             stack.push(SkipData {
                                 ttype: [map_ident.key_type, map_ident.value_type],
                                 len: (map_ident.size * 2) as u32,
+                                depth: depth + 1,
                             });
                         }
                     }
@@ -1315,6 +1331,7 @@ impl<'a> TInputProtocol for TBinaryUnsafeInputProtocol<'a> {
 
             let top = stack.last().unwrap();
             ttype = top.ttype[(top.len & 1) as usize];
+            depth = top.depth;
             if ttype != TType::Struct {
                 skip_stack_pop!(stack);
             }
